@@ -757,6 +757,9 @@ impl World<'_> {
                     drive!(std::io::stdout());
                 }
                 let got = fds.disk_tail(before);
+                // whatever the stream under test failed to flush must not leak into later probes
+                let _ = std::io::stdout().flush();
+                let _ = std::io::stderr().flush();
                 // restore the descriptor to what the model says it is
                 fds.retarget(fd, self.m.fd_tty[(fd - 1) as usize]);
                 self.probe(if lock_at.is_some() { "probe_std_handle_write_with_lock" } else { "probe_std_handle_write" });
@@ -1335,6 +1338,7 @@ pub fn run_parent(mode: &str, seed: u64, histories: u64, children: usize, sweep:
     let mut sigs: BTreeSet<String> = BTreeSet::new();
     let mut cells: BTreeSet<u64> = BTreeSet::new();
     let mut violations: Vec<Value> = Vec::new();
+    let mut mismatches = 0u32;
     for (child, report) in procs {
         let status = match child {
             Ok(mut c) => c.wait().ok(),
@@ -1354,7 +1358,7 @@ pub fn run_parent(mode: &str, seed: u64, histories: u64, children: usize, sweep:
             continue;
         }
         if rep.get("reexec_mismatch").and_then(|x| x.as_u64()).unwrap_or(0) > 0 {
-            batch.harness_error = Some("envsim: a re-executed history produced a different event-log hash".into());
+            mismatches += 1;
         }
         batch.histories += rep["histories"].as_u64().unwrap_or(0);
         batch.ops += rep["ops"].as_u64().unwrap_or(0);
@@ -1379,6 +1383,11 @@ pub fn run_parent(mode: &str, seed: u64, histories: u64, children: usize, sweep:
         }
     }
     violations.sort_by_key(|v| v["run"].as_u64().unwrap_or(u64::MAX));
+    // (a violating history is reported even if re-executions disagreed: code under test that
+    // keeps state across calls makes histories depend on their predecessors - its defect, not ours)
+    if mismatches > 0 && violations.is_empty() && batch.harness_error.is_none() {
+        batch.harness_error = Some("envsim: a re-executed history produced a different event-log hash".into());
+    }
     batch.violation = violations.into_iter().next();
     batch.distinct = sigs.len();
     batch.cells = cells.len();
